@@ -5,7 +5,23 @@ import re
 
 GENERATORS = []
 
-NOT_DECIDED = {}
+NOT_DECIDED = {
+    "C01": ["termination of a cycle", "checker/interpreter agreement for whole programs (a checker that accepts an ill-typed program is invisible)",
+            "exec_stmt/eval_expr over storage beyond the REPEAT/WHILE/FOR/CASE arms and call paths under contract", "integer ** beyond exponent 5 on general bases", "execution budget timeout"],
+    "C02": ["short-circuit AND/OR and operator precedence (parser/lowering)", "by-value / by-reference argument binding over storage", "DINT-and-wider DIV/MOD (128-bit divider)",
+            "REAL/LREAL arithmetic", "STRING comparison", "arrays and structs"],
+    "C03": ["the ordinary assignment path (write_lvalue stores the evaluated value as-is: an INT variable can hold a DInt)", "parameter passing", "debugger writes", "restart", "REAL and STRING/CHAR coercions"],
+    "C04": ["value contracts of the exec_ton/tof/tp glue beyond frame + step (their step functions are proved separately)", "PT changing during a trace in the trace lemmas"],
+    "C06": ["the loop shell of collect_ready_tasks (look-ups feeding the decision slice)", "std sort_by_key", "background programs (set difference over IndexMap)"],
+    "C07": ["binding application over storage (read_inputs/write_outputs bodies)", "driver loops inside read_cycle_inputs/write_cycle_outputs", "latching as seen by program reads", "images longer than the stated bounds"],
+    "C08": ["every place a fault can surface inside tasks", "delivery of the safe image when a driver fails (apply_safe_state stops at the first failing driver)"],
+    "C09": ["observational equivalence with a fresh runtime", "instance-id bindings across restart", "program-level retain in retain_snapshot", "the save/load power cycle beyond the scalar codec and save_snapshot"],
+    "C10": ["crash atomicity of the file store (not decidable by contracts)", "decode of arbitrary tags, arrays, structs, whole snapshots"],
+    "C11": ["module-level encode/decode round trip", "every emitted container validates (encoder)", "apply_bytecode_bytes", "semantic content of the TYPE/REF/POU/RESOURCE section decoders"],
+    "C14": ["state/documents.rs (which text the analysis database holds for an open document)", "the position-carrying answers themselves", "symbolic texts longer than 2-3 characters"],
+    "C17": ["transparency, one stop per pause, resume liveness and deadlock freedom (Mutex/Condvar interleavings)"],
+    "C18": ["handlers' own effects", "transports", "malformed-JSON totality", "config.set with a credential key next to ordinary keys", "that each dispatcher matches the untrimmed request type the role gate saw"],
+}
 
 
 def kani_trusted_scan(units):
